@@ -182,9 +182,18 @@ func capCheck(r *common.Run) {
 		reqs = append(reqs, 1<<k-1, 1<<k, 1<<k+1)
 	}
 	for _, req := range reqs {
-		var got int
-		_, st, p := common.Catch(func() { s := ringz.NewSync[int](req); got = s.Cap() })
+		var got, gotInit int
+		_, st, p := common.Catch(func() {
+			s := ringz.NewSync[int](req)
+			got = s.Cap()
+			var z ringz.SyncRing[int] // the other public way to set a ring up
+			z.Init(req)
+			gotInit = z.Cap()
+		})
 		r.Eval(1)
+		if !p && gotInit != got {
+			r.Violation("SyncRing.Init|Cap-differs-from-NewSync", fmt.Sprintf("(*SyncRing).Init(%d) on a zero value gives Cap() = %d, NewSync(%d) gives %d", req, gotInit, req, got), map[string]any{"cap": req}, "")
+		}
 		if p {
 			r.Violation("SyncRing.Init|panic", fmt.Sprintf("NewSync(%d) panicked", req), map[string]any{"cap": req, "stack": st}, "")
 			continue
@@ -337,7 +346,12 @@ func syncSearch(r *common.Run) []space.Result {
 			Name:   fmt.Sprintf("SyncRing/cap%d", capa),
 			Starts: len(ks),
 			New: func(s int) space.Instance {
-				x := &syncInst{s: ringz.NewSync[Val](capa), cap: capa, max: depth}
+				x := &syncInst{cap: capa, max: depth}
+				if s%2 == 1 {
+					x.s.Init(capa) // zero value + Init instead of the constructor
+				} else {
+					x.s = ringz.NewSync[Val](capa)
+				}
 				if s > 0 {
 					teleport(&x.s, ks[s])
 				}
